@@ -361,44 +361,63 @@ func lemmaDailySlotInDataArea(t time.Time, recordSize int32) {
 //@ modifies mem:utils.io.TimeBucketInfo
 
 //@ func (*TimeBucketInfo).GetVersion
-//@ trusted "sync.Once + initFromFile is a no-op once IsRead is set (NewTimeBucketInfo and load set it); then the getter returns the field"
-//@ modifies mem:utils.io.TimeBucketInfo
-//@ ensures #loaded: old(f.IsRead) ==> (result == f.version && forallint(p, pattern(at(f, p)), at(f, p) == old(at(f, p))))
+//@ trusted "sync.Once + initFromFile is a no-op once IsRead is set (NewTimeBucketInfo and load set it); then the getter returns the field and writes nothing"
+//@ pure
+//@ requires #loaded: f.IsRead
+//@ ensures result == f.version
 
 //@ func (*TimeBucketInfo).GetDescription
-//@ trusted "sync.Once + initFromFile is a no-op once IsRead is set (NewTimeBucketInfo and load set it); then the getter returns the field"
-//@ modifies mem:utils.io.TimeBucketInfo
-//@ ensures #loaded: old(f.IsRead) ==> (result == f.description && forallint(p, pattern(at(f, p)), at(f, p) == old(at(f, p))))
+//@ trusted "sync.Once + initFromFile is a no-op once IsRead is set (NewTimeBucketInfo and load set it); then the getter returns the field and writes nothing"
+//@ pure
+//@ requires #loaded: f.IsRead
+//@ ensures result == f.description
 
 //@ func (*TimeBucketInfo).GetTimeframe
-//@ trusted "sync.Once + initFromFile is a no-op once IsRead is set (NewTimeBucketInfo and load set it); then the getter returns the field"
-//@ modifies mem:utils.io.TimeBucketInfo
-//@ ensures #loaded: old(f.IsRead) ==> (result == f.timeframe && forallint(p, pattern(at(f, p)), at(f, p) == old(at(f, p))))
+//@ trusted "sync.Once + initFromFile is a no-op once IsRead is set (NewTimeBucketInfo and load set it); then the getter returns the field and writes nothing"
+//@ pure
+//@ requires #loaded: f.IsRead
+//@ ensures result == f.timeframe
 
 //@ func (*TimeBucketInfo).GetNelements
-//@ trusted "sync.Once + initFromFile is a no-op once IsRead is set (NewTimeBucketInfo and load set it); then the getter returns the field"
-//@ modifies mem:utils.io.TimeBucketInfo
-//@ ensures #loaded: old(f.IsRead) ==> (result == f.nElements && forallint(p, pattern(at(f, p)), at(f, p) == old(at(f, p))))
+//@ trusted "sync.Once + initFromFile is a no-op once IsRead is set (NewTimeBucketInfo and load set it); then the getter returns the field and writes nothing"
+//@ pure
+//@ requires #loaded: f.IsRead
+//@ ensures result == f.nElements
 
 //@ func (*TimeBucketInfo).GetRecordLength
-//@ trusted "sync.Once + initFromFile is a no-op once IsRead is set (NewTimeBucketInfo and load set it); then the getter returns the field"
-//@ modifies mem:utils.io.TimeBucketInfo
-//@ ensures #loaded: old(f.IsRead) ==> (result == f.recordLength && forallint(p, pattern(at(f, p)), at(f, p) == old(at(f, p))))
+//@ trusted "sync.Once + initFromFile is a no-op once IsRead is set (NewTimeBucketInfo and load set it); then the getter returns the field and writes nothing"
+//@ pure
+//@ requires #loaded: f.IsRead
+//@ ensures result == f.recordLength
 
 //@ func (*TimeBucketInfo).GetRecordType
-//@ trusted "sync.Once + initFromFile is a no-op once IsRead is set (NewTimeBucketInfo and load set it); then the getter returns the field"
-//@ modifies mem:utils.io.TimeBucketInfo
-//@ ensures #loaded: old(f.IsRead) ==> (result == f.recordType && forallint(p, pattern(at(f, p)), at(f, p) == old(at(f, p))))
+//@ trusted "sync.Once + initFromFile is a no-op once IsRead is set (NewTimeBucketInfo and load set it); then the getter returns the field and writes nothing"
+//@ pure
+//@ requires #loaded: f.IsRead
+//@ ensures result == f.recordType
 
 //@ func (*TimeBucketInfo).GetElementNames
-//@ trusted "sync.Once + initFromFile is a no-op once IsRead is set (NewTimeBucketInfo and load set it); then the getter returns the field"
-//@ modifies mem:utils.io.TimeBucketInfo
-//@ ensures #loaded: old(f.IsRead) ==> (result == f.elementNames && forallint(p, pattern(at(f, p)), at(f, p) == old(at(f, p))))
+//@ trusted "sync.Once + initFromFile is a no-op once IsRead is set (NewTimeBucketInfo and load set it); then the getter returns the field and writes nothing"
+//@ pure
+//@ requires #loaded: f.IsRead
+//@ ensures result == f.elementNames
 
 //@ func (*TimeBucketInfo).GetElementTypes
-//@ trusted "sync.Once + initFromFile is a no-op once IsRead is set (NewTimeBucketInfo and load set it); then the getter returns the field"
+//@ trusted "sync.Once + initFromFile is a no-op once IsRead is set (NewTimeBucketInfo and load set it); then the getter returns the field and writes nothing"
+//@ pure
+//@ requires #loaded: f.IsRead
+//@ ensures result == f.elementTypes
+
+//@ func (*TimeBucketInfo).GetIntervals
+//@ trusted "sync.Once + initFromFile is a no-op once IsRead is set; intervals per day of the timeframe"
+//@ pure
+//@ requires #loaded: f.IsRead
+
+//@ func (*TimeBucketInfo).GetVariableRecordLength
+//@ trusted "sync.Once + initFromFile is a no-op once IsRead is set; the variable record length is computed on first use and cached in the object"
 //@ modifies mem:utils.io.TimeBucketInfo
-//@ ensures #loaded: old(f.IsRead) ==> (result == f.elementTypes && forallint(p, pattern(at(f, p)), at(f, p) == old(at(f, p))))
+//@ ensures #loaded: old(f.IsRead) ==> (f.IsRead && f.Year == old(f.Year) && same(f.Path, old(f.Path)) && f.timeframe == old(f.timeframe) && f.nElements == old(f.nElements) && f.recordType == old(f.recordType) && f.recordLength == old(f.recordLength) && f.elementNames == old(f.elementNames) && f.elementTypes == old(f.elementTypes))
+//@ ensures #others: forallint(p, pattern(at(f, p)), p != f ==> at(f, p) == old(at(f, p)))
 
 // The header written for a bucket carries its schema: scalars and element types field by field, for every bucket
 // description whose element count fits the header (<= 1024 columns).
